@@ -1,0 +1,10 @@
+//go:build verif
+
+// Contracts for package core, checked by /verif/govc (comment-only file).
+package core
+
+// The threshold every component uses is the spec quorum of the configured membership.
+//@ func (*RuntimeConfig).QuorumSize property C20
+//@   ensures [spec] result == hotstuff.Q(len(g.replicas))
+//@ func (*RuntimeConfig).ReplicaCount property C20
+//@   ensures [def] result == len(g.replicas)
